@@ -28,6 +28,11 @@
 (*   "MclqIncl"    size_liquid includes the 8-byte header: the parser      *)
 (*                 over-reads by 8 and fails when MCLQ ends the file       *)
 (*   "MtxfAlways"  MTXF is always written for WotLK+ (version marker)      *)
+(* Since the fix commits 4e9fa43, e3ee833, 428fad3, b1275d8, 1531bd2 the   *)
+(* code has only "Pad8" and "MtxfAlways" (MC_AdtLayout.cfg); McinExcl,     *)
+(* MtxfToEof, RefsTriple, InjectMfbo, MclqIncl describe the repaired       *)
+(* defects and are kept so that each can be shown to violate its strict    *)
+(* invariant (MC_AdtLayout_dev<Name>.cfg, MC_AdtLayout_legacy.cfg).        *)
 (* Mutant switch (sanity of the invariants, never on in a cfg):            *)
 (*   MhdrFileRelative  MHDR offsets relative to file start                 *)
 (***************************************************************************)
